@@ -109,6 +109,8 @@ pub fn compute_corpus() -> Vec<Opts> {
     out.push(h);
     // short names of two and three bytes (clusters are cut at character boundaries)
     out.push(Opts::new(P::Seq(vec![P::Switch(Names::short('é')), P::Switch(Names::short('€')), P::Switch(Names::short('v')), P::arg(Names::short('ß'), Ty::Os).opt()])));
+    // one short name declared as a flag at the top and as an argument inside a command
+    out.push(Opts::new(P::Seq(vec![P::Switch(Names::short('v')), P::Switch(Names::short('f')), P::cmd("put", Opts::new(P::Seq(vec![P::arg(Names::short('f'), Ty::Os).opt()]))).opt()])));
     // chained adjacent commands: a command that fails on a foreign item is run again on a
     // narrower range of the line (nothing but the outcome may reach the streams)
     let eat = P::Cmd { name: "eat".into(), shorts: vec![], longs: vec![], inner: Box::new(Opts::new(P::Seq(vec![P::pos(Ty::Os).opt()]))), adjacent: true, help: None };
@@ -155,6 +157,26 @@ fn alphabet_for(o: &Opts) -> Vec<Tok> {
     }
     let mut names = vec![];
     shorts(&serde_json::to_value(&o.p).unwrap_or(Value::Null), &mut names);
+    // clusters of the first two distinct ASCII short names (one of them may be declared twice,
+    // as a flag and as an argument: the cluster is then ambiguous)
+    {
+        let mut distinct: Vec<char> = vec![];
+        for c in names.iter().copied().filter(|c| c.is_ascii_alphabetic()) {
+            if !distinct.contains(&c) {
+                distinct.push(c);
+            }
+        }
+        if distinct.len() >= 2 {
+            let (x, y) = (distinct[0], distinct[1]);
+            a.push(Tok::s(&format!("-{}{}", x, y)));
+            a.push(Tok::s(&format!("-{}{}", y, x)));
+            a.push(Tok::s(&format!("-{}{}{}", x, x, y)));
+        }
+    }
+    // items shaped like a short name with `=` whose name is a truncated multi-byte sequence
+    for t in [&b"-\xe2=x"[..], b"-\xc3=", b"-\xf0\x9f=abc"] {
+        a.push(Tok(t.to_vec()));
+    }
     let ascii = names.iter().copied().find(|c| c.is_ascii());
     for c in names.iter().copied().filter(|c| !c.is_ascii()) {
         a.push(Tok::s(&format!("-{}{}", c, c)));
@@ -413,7 +435,7 @@ impl Check for C11 {
         }
     }
     fn rule(&self) -> String {
-        "corpus = definitions sampled at fixed strides from the conventional family (with/without version), general shapes, adjacent groups, the documented family, plus env-backed, max_width(40), fallback_to_usage + version, custom help names; every definition is compiled into the harness executable and run through the real OptionParser::run() in a child process (execve with the argument vector as bytes, argv[0] set explicitly, empty environment); inputs = every vector of the token tree over the definition's names, words, an empty item, a non-UTF-8 word, --name=\\xff, --help, --version and the completion marker; argv[0] in {plain, absolute path, relative path, name with space, non-UTF-8, empty, names with dots / a version suffix / an extension / a leading dot / a trailing slash / non-ASCII} for vectors of length <= 1; oracle = (1) for the conventional part of the corpus the outcome class prescribed by the reference scanner (value / stderr failure / usage on stdout for a level with fallback_to_usage that got no items); (2) in-process run_inner with the name taken from argv[0]'s file name: value -> stdout 'BODY <debug>' / status 0 / empty stderr; stdout -> text + newline on stdout / 0 / empty stderr, no BODY; stderr -> 'Error: ' + text on stderr / status 1 / empty stdout / non-empty message; completion -> text on stdout / 0; plus, for vectors of length <= 1, the same child built with the dull-color and the bright-color feature (streams are pipes, NO_COLOR unset and set): identical plain bytes; evaluation = one spawned process; plus short names of two and three bytes with clusters of them and a chain of adjacent commands under many; a vector on which run_inner panics has no prediction but the child must still end with status 0 or 1".into()
+        "corpus = definitions sampled at fixed strides from the conventional family (with/without version), general shapes, adjacent groups, the documented family, plus env-backed, max_width(40), fallback_to_usage + version, custom help names; every definition is compiled into the harness executable and run through the real OptionParser::run() in a child process (execve with the argument vector as bytes, argv[0] set explicitly, empty environment); inputs = every vector of the token tree over the definition's names, words, an empty item, a non-UTF-8 word, --name=\\xff, --help, --version and the completion marker; argv[0] in {plain, absolute path, relative path, name with space, non-UTF-8, empty, names with dots / a version suffix / an extension / a leading dot / a trailing slash / non-ASCII} for vectors of length <= 1; oracle = (1) for the conventional part of the corpus the outcome class prescribed by the reference scanner (value / stderr failure / usage on stdout for a level with fallback_to_usage that got no items); (2) in-process run_inner with the name taken from argv[0]'s file name: value -> stdout 'BODY <debug>' / status 0 / empty stderr; stdout -> text + newline on stdout / 0 / empty stderr, no BODY; stderr -> 'Error: ' + text on stderr / status 1 / empty stdout / non-empty message; completion -> text on stdout / 0; plus, for vectors of length <= 1, the same child built with the dull-color and the bright-color feature (streams are pipes, NO_COLOR unset and set): identical plain bytes; evaluation = one spawned process; plus short names of two and three bytes with clusters of them and a chain of adjacent commands under many; a vector on which run_inner panics has no prediction but the child must still end with status 0 or 1; clusters of the first two ASCII short names (one corpus definition declares a name as a flag and as an argument: ambiguous clusters), items shaped like -<truncated multi-byte sequence>=value".into()
     }
     fn bounds(&self, tier: Tier) -> Value {
         json!({"corpus": corpus().len(), "vector_length": tier.pick(2, 3)})
